@@ -42,7 +42,6 @@ EITHER zones (what the documentation leaves open; the oracle accepts both):
 import itertools
 import math
 import os
-import threading
 
 import numpy as np
 import tskit
@@ -213,7 +212,7 @@ def rand_weights(rng, n, k, kind=None):
 
 
 def _fmt(a):
-    return np.array2string(np.asarray(a), precision=12, threshold=60, max_line_width=200)
+    return np.array2string(np.asarray(a), precision=12, threshold=600, max_line_width=200)
 
 
 def mismatch(got, exp, tol):
@@ -267,11 +266,6 @@ def tol_from(mag, peak=None, span=None):
     if peak is not None:
         t = t + 1e-10 * np.asarray(peak) * (1.0 if span is None else span)
     return t
-
-
-def window_spans(ref, windows):
-    w = ref.parse_windows(windows)
-    return np.array([w[i + 1] - w[i] for i in range(len(w) - 1)])
 
 
 def call(ctx, fn, *a, **kw):
@@ -498,7 +492,6 @@ def first_principles_columns(cs, rng, stat, sets, idx_list, windows, mode, span_
         tup, pred = tuples_for(stat, sets, idx)
         if len(tup) > budget:
             continue
-        # segregating-sites style statistics are not tuple averages
         exp = ref.tuple_stat(tup, pred, len(idx), windows, mode, False, span_normalise)
         g = got_full[..., c]
         m = mag_full[..., c]
@@ -1947,8 +1940,6 @@ def fam_msprime(case, ctx, rng):
     ts = msprime.sim_ancestry(n, ploidy=1, sequence_length=10, recombination_rate=rng.choice([0.05, 0.15]),
                               random_seed=seed, discrete_genome=discrete)
     ts = msprime.sim_mutations(ts, rate=rng.choice([0.02, 0.1]), random_seed=seed, discrete_genome=discrete)
-    if ts.num_trees > 12 or ts.num_sites > 12:
-        ts = ts.keep_intervals([[0, 3]], simplify=False).trim() if False else ts
     m = from_tables(ts.dump_tables())
     m.schemas = {}
     m.metadata_schema = ""
